@@ -7,7 +7,9 @@
    client exactly the first n bytes of what the server sends, or an unexpected-EOF error when the server
    sends fewer; a response without a declared length gives everything the server sent, followed by EOF, or
    by unexpected EOF when the connection was cut.
-   The digest is a parameter [H] (hex md5 in the implementation).  Definitions only. *)
+   The digest is a parameter [H] (hex md5 in the implementation).  Definitions only.
+   This is the model of the code AFTER fix F25 (the reader returned by Get counts the bytes it delivers); the
+   reader before the fix survives in model/C03_old_model.v as a regression witness. *)
 From Coq Require Import Arith NArith List Ascii String Bool.
 From AV Require Import lib.Str.
 Import ListNotations.
@@ -18,7 +20,8 @@ Local Open Scope nat_scope.
 Definition slen (s : string) : nat := String.length s.
 
 (* ------------------------------------------------------------------ transport *)
-Inductive term := TEOF | TUEOF.                       (* how the body stream ends *)
+Inductive term := TEOF | TUEOF | TSIZE.               (* how the body stream ends: EOF, unexpected EOF, or the
+                                                         size check of the reader returned by Get (finding F25) *)
 Record stream := { s_bytes : string; s_term : term }.
 
 (* what a Keep service does with one request *)
@@ -33,16 +36,27 @@ Definition transport (declared : option nat) (body : string) (cut : bool) : stre
   | None => {| s_bytes := body; s_term := if cut then TUEOF else TEOF |}
   end.
 
+(* keepclient.go/hashcheck.go sizeCheckingReader (fix F25): the body handed to the HashCheckingReader passes through
+   at most [n] bytes; it ends in ErrBlockSizeMismatch instead of io.EOF when the body ends early, and as soon as
+   the body turns out to be longer than [n].  (With a declared Content-Length = n this changes nothing: net/http
+   already delivers exactly n bytes or an unexpected EOF.) *)
+Definition sized (n : nat) (st : stream) : stream :=
+  if n <? slen (s_bytes st) then {| s_bytes := take n (s_bytes st); s_term := TSIZE |}
+  else if slen (s_bytes st) <? n then
+    {| s_bytes := s_bytes st; s_term := match s_term st with TEOF => TSIZE | t => t end |}
+  else st.
+
 Inductive err :=
 | ENil | EEOF | EBadChecksum | EUEOF                  (* nil, io.EOF, BadChecksum, io.ErrUnexpectedEOF *)
 | ENotFound | ETemp | EPerm                           (* BlockNotFound, ErrNotFound{temporary}, ErrNotFound{permanent} *)
 | ESizeMismatch | ENoSize                             (* the two fmt.Errorf results of getOrHead *)
+| EBadSize                                            (* ErrBlockSizeMismatch: the body did not have the expected size *)
 | EOther.
 
 Definition err_eqb (a b : err) : bool :=
   match a, b with
   | ENil, ENil | EEOF, EEOF | EBadChecksum, EBadChecksum | EUEOF, EUEOF | ENotFound, ENotFound | ETemp, ETemp
-  | EPerm, EPerm | ESizeMismatch, ESizeMismatch | ENoSize, ENoSize | EOther, EOther => true
+  | EPerm, EPerm | ESizeMismatch, ESizeMismatch | ENoSize, ENoSize | EBadSize, EBadSize | EOther, EOther => true
   | _, _ => false
   end.
 
@@ -95,6 +109,7 @@ Definition hcr_read (r : hcr) (n : nat) : string * err * hcr :=
     (EmptyString,
      match s_term (h_st r) with
      | TUEOF => EUEOF
+     | TSIZE => EBadSize
      | TEOF => if hash_ok (h_check r) b then EEOF else EBadChecksum
      end, r).
 
@@ -102,7 +117,7 @@ Definition hcr_read (r : hcr) (n : nat) : string * err * hcr :=
 Definition hcr_read_all (r : hcr) : string * err :=
   let b := s_bytes (h_st r) in
   (drop (h_pos r) b,
-   match s_term (h_st r) with TUEOF => EUEOF | TEOF => if hash_ok (h_check r) b then EEOF else EBadChecksum end).
+   match s_term (h_st r) with TUEOF => EUEOF | TSIZE => EBadSize | TEOF => if hash_ok (h_check r) b then EEOF else EBadChecksum end).
 
 (* io.ReadFull(rdr, buf) with len(buf) = n, on a fresh reader *)
 Definition hcr_read_full (r : hcr) (n : nat) : string * err * hcr :=
@@ -111,6 +126,7 @@ Definition hcr_read_full (r : hcr) (n : nat) : string * err * hcr :=
   else (b,
         match s_term (h_st r) with
         | TUEOF => EUEOF
+        | TSIZE => EBadSize
         | TEOF => if hash_ok (h_check r) (s_bytes (h_st r)) then (if slen b =? 0 then EEOF else EUEOF) else EBadChecksum
         end,
         {| h_st := h_st r; h_pos := slen (s_bytes (h_st r)); h_check := h_check r |}).
@@ -119,11 +135,14 @@ Definition hcr_read_full (r : hcr) (n : nat) : string * err * hcr :=
 Definition hcr_write_to (r : hcr) : string * err :=
   let b := s_bytes (h_st r) in
   (drop (h_pos r) b,
-   match s_term (h_st r) with TUEOF => EUEOF | TEOF => if hash_ok (h_check r) b then ENil else EBadChecksum end).
+   match s_term (h_st r) with TUEOF => EUEOF | TSIZE => EBadSize | TEOF => if hash_ok (h_check r) b then ENil else EBadChecksum end).
 
 (* Close(): drains the rest into the hash, then compares *)
 Definition hcr_close (r : hcr) : err :=
-  match s_term (h_st r) with TUEOF => EUEOF | TEOF => if hash_ok (h_check r) (s_bytes (h_st r)) then ENil else EBadChecksum end.
+  match s_term (h_st r) with
+  | TUEOF => EUEOF | TSIZE => EBadSize
+  | TEOF => if hash_ok (h_check r) (s_bytes (h_st r)) then ENil else EBadChecksum
+  end.
 
 (* ------------------------------------------------------------------ keepclient.go: getOrHead("GET") *)
 Definition retry_status (c : N) : bool := ((c =? 408) || (c =? 429) || (500 <=? c))%N.
@@ -155,10 +174,10 @@ Fixpoint try_servers (servers : list nat) (round : nat) (expect : option nat) (c
       else
         match expect, declared with
         | None, None => (Some (GErr ENoSize), c404, retry, log')
-        | None, Some n => (Some (GOk x round n (transport declared body cut)), c404, retry, log')
-        | Some e, Some n => if e =? n then (Some (GOk x round e (transport declared body cut)), c404, retry, log')
+        | None, Some n => (Some (GOk x round n (sized n (transport declared body cut))), c404, retry, log')
+        | Some e, Some n => if e =? n then (Some (GOk x round e (sized e (transport declared body cut))), c404, retry, log')
                             else (Some (GErr ESizeMismatch), c404, retry, log')
-        | Some e, None => (Some (GOk x round e (transport declared body cut)), c404, retry, log')
+        | Some e, None => (Some (GOk x round e (sized e (transport declared body cut))), c404, retry, log')
         end
     end
   end.
